@@ -372,9 +372,11 @@ func ParseLine(line string) interface{} {
 			return Error{fmt.Sprintf("malformed condition command with only %d arguments (need 3): %s", len(c), line)}
 		}
 
-		args := care.FindStringSubmatch(c[1]) // the argument to the condition
+		// the arguments and the message, taken from the whole line so that the argument
+		// list ends at its own '>' and not at the last '>' of the line
+		args := cfre.FindStringSubmatch(line)
 
-		if len(args) < 4 {
+		if len(args) < 5 {
 			return Error{fmt.Sprintf("malformed condition command: %s", line)}
 		}
 
@@ -393,9 +395,9 @@ func ParseLine(line string) interface{} {
 			return Error{fmt.Sprintf("malformed condition command %s; third argument %s should be timeout duration in format like 10s or 1m. Yours could not be parsed because %s. Line was was %s", c, args[3], err.Error(), line)}
 		}
 
-		log.Debugf("Parsed message to send with condition to wait for %d results matching %s within %s: %s", n, args[1], d, c[2])
+		log.Debugf("Parsed message to send with condition to wait for %d results matching %s within %s: %s", n, args[1], d, args[4])
 		return Send{
-			Msg: c[2],
+			Msg: args[4],
 			Condition: Condition{
 				AcceptPattern: *re,
 				Count:         n,
